@@ -390,15 +390,18 @@ struct Cx<'a> {
     pshape: String,
     group: &'static str,
     queries: u64,
+    /// number of queries issued inside the current rewrite group (the first one is the base)
+    group_q: u32,
 }
 
 impl<'a> Cx<'a> {
     fn q(&mut self, sql: &str) -> Out {
         self.queries += 1;
+        self.group_q += 1;
         // harness self-test only (`--opt plant=<name>`): perturb what is sent to the subject
         let sql = match self.fx.plant.as_deref() {
             Some("and-true") => sql.replace(" AND TRUE", " AND (b > 0.5)"),
-            Some("commute") if self.group == "commute" => sql.replacen(" OR ", " AND ", 1),
+            Some("commute") if self.group == "commute" && self.group_q >= 2 => sql.replacen(" AND ", " OR ", 1),
             Some("topk") => sql.replace("LIMIT 3", "LIMIT 2"),
             Some("join") => sql.replace("FROM u JOIN t ON a = ua", "FROM u JOIN t ON a < ua"),
             _ => sql.to_string(),
@@ -524,6 +527,7 @@ const GROUPS: [&str; 9] = ["partition", "nf-partition", "commute", "neutral", "j
 
 fn run_group(cx: &mut Cx, group: &'static str) {
     cx.group = group;
+    cx.group_q = 0;
     let tb = cx.table;
     let p = cx.pred.to_sql();
     let base_sql = format!("SELECT id FROM {tb} WHERE {p}");
@@ -870,7 +874,7 @@ impl<'a> Run<'a> {
 
 fn check_pred(fx: &Fx, rep: &mut Reporter, pass: &str, table: &'static str, groups: &[&'static str], p: &Expr) {
     let before = rep.violation_count();
-    let mut cx = Cx { fx, rep, pass, table, pred: p, pshape: shape(p), group: "", queries: 0 };
+    let mut cx = Cx { fx, rep, pass, table, pred: p, pshape: shape(p), group: "", queries: 0, group_q: 0 };
     // vacuity: how selective is the base query
     let base = cx.q(&format!("SELECT id FROM {table} WHERE {}", p.to_sql()));
     let n = match &base {
